@@ -15,6 +15,7 @@ import (
 	"bytes"
 	"encoding/json"
 	"fmt"
+	"io"
 	"math/rand"
 	"sync"
 	"time"
@@ -433,7 +434,8 @@ func c11Replay(idx int, evs []connEv, sd int64) *Result {
 			if int(B.Stats.Recvd.Load()) != taken {
 				res.viol("counter:recvd", "Stats.Recvd=%d but the transport handed out %d bytes", B.Stats.Recvd.Load(), taken)
 			}
-			if ret != nil && (B.ReadStart != ret.A || B.ReadEnd != ret.B || int(B.Stats.Recvd.Load()) != ret.C) {
+			// the unread window and the counter, not where the window sits in the buffer (compaction policy is free)
+			if ret != nil && (B.ReadEnd-B.ReadStart != ret.B-ret.A || int(B.Stats.Recvd.Load()) != ret.C) {
 				res.drift("after receive of (%s,%d): ReadStart/ReadEnd/Recvd = %d/%d/%d, spec %d/%d/%d", v.kind, v.n,
 					B.ReadStart, B.ReadEnd, B.Stats.Recvd.Load(), ret.A, ret.B, ret.C)
 			}
@@ -810,7 +812,43 @@ func c11PipeClose(results *ndWriter, sd int64) {
 	}
 }
 
+// c11Consts measures writeBufSize, readBufSize and numBuffers on a live Conn: the exported buffers give the sizes; the
+// number of write buffers is one more than the number of flushes that return while the transport accepts nothing.
+func c11Consts() string {
+	hold := make(chan struct{})
+	c := p2p.NewConn(&blockedRW{hold: hold})
+	wbuf, rbuf := len(c.WriteBuf), len(c.ReadBuf)
+	n := 0
+	for n < 64 {
+		done := make(chan struct{})
+		go func() {
+			c.SendByte(1)
+			c.Flush()
+			close(done)
+		}()
+		select {
+		case <-done:
+			n++
+			continue
+		case <-time.After(300 * time.Millisecond):
+		}
+		break
+	}
+	close(hold)
+	return fmt.Sprintf(`{"wbuf": %d, "rbuf": %d, "nbufs": %d}`, wbuf, rbuf, n+1)
+}
+
+type blockedRW struct{ hold chan struct{} }
+
+func (b *blockedRW) Write(p []byte) (int, error) { <-b.hold; return len(p), nil }
+func (b *blockedRW) Read(p []byte) (int, error)  { <-b.hold; return 0, io.EOF }
+
 func c11Main(args []string) error {
+	if len(args) >= 1 && args[0] == "consts" {
+		// the buffer dimensions of this implementation, for the specification's constants
+		fmt.Println(c11Consts())
+		return nil
+	}
 	if len(args) < 2 || (len(args) < 3 && args[0] != "bufend") {
 		return fmt.Errorf("usage: vh c11 replay|record in out [n] | bufend out")
 	}
